@@ -198,10 +198,5 @@ Definition otto_def_array (o : obj) (k : key) (d : desc) (throw : bool) : obj * 
     end
   end.
 
-(* builtinArrayLastIndexOf reads call.Argument(1).number() before it looks at the length (finding class 14);
-   builtinArrayJoin converts the separator before it reads length (finding class 15) *)
 Definition otto : dialect :=
-  mkDia otto_def_array otto_rel otto_cnt otto_indexof otto_lastindexof true true.
-(* ES5 with only the lastIndexOf departure: used by the correspondence run to attribute a disagreement *)
-Definition es5_lio : dialect :=
-  mkDia def_array (dia_rel es5) (dia_cnt es5) (dia_indexof es5) (dia_lastindexof es5) true false.
+  mkDia otto_def_array otto_rel otto_cnt otto_indexof otto_lastindexof.
